@@ -29,34 +29,55 @@ LETTER = {"transient": "T", "pending": "P", "persistent": "S", "deleted": "D", "
 _cache = {}
 
 
-def mapping():
-    """(Base, Item) — created once per process"""
-    if "Item" not in _cache:
+TOKEN_OPS = ("gett", "queryt", "touch", "pickle")
+
+
+def mapping(with_data=False):
+    """(Base, Item) — created once per process. with_data: the class of the identity-token
+    histories, which has a second, plain column (the modelled histories use the one-column
+    class the Lean model transcribes)"""
+    tag = "ItemD" if with_data else "Item"
+    if tag not in _cache:
         import sqlalchemy as sa
         from sqlalchemy import orm
 
         Base = orm.declarative_base()
 
-        class Item(Base):
-            __tablename__ = "item"
-            id = sa.Column(sa.Integer, primary_key=True, autoincrement=False)
+        if with_data:
 
-            def __repr__(self):
-                return "Item@%x" % id(self)
+            class Item(Base):
+                __tablename__ = "item"
+                id = sa.Column(sa.Integer, primary_key=True, autoincrement=False)
+                data = sa.Column(sa.String, nullable=True)
 
-        _cache["Base"], _cache["Item"] = Base, Item
-    return _cache["Base"], _cache["Item"]
+                def __repr__(self):
+                    return "ItemD@%x" % id(self)
+
+            # importable by name: instances travel through pickle ("pickle" operation)
+            Item.__module__, Item.__qualname__ = __name__, "ItemD"
+            globals()["ItemD"] = Item
+        else:
+
+            class Item(Base):
+                __tablename__ = "item"
+                id = sa.Column(sa.Integer, primary_key=True, autoincrement=False)
+
+                def __repr__(self):
+                    return "Item@%x" % id(self)
+
+        _cache["Base" + tag], _cache[tag] = Base, Item
+    return _cache["Base" + tag], _cache[tag]
 
 
 class Env:
-    def __init__(self, eoc=True):
+    def __init__(self, eoc=True, with_data=False):
         import sqlalchemy as sa
         from sqlalchemy import event
         from sqlalchemy.orm import Session
         from sqlalchemy.pool import StaticPool
 
         self.sa = sa
-        Base, Item = mapping()
+        Base, Item = mapping(with_data)
         self.Item = Item
         self.eng = sa.create_engine("sqlite://", poolclass=StaticPool, connect_args={"autocommit": False})
         Base.metadata.create_all(self.eng)
@@ -111,7 +132,7 @@ class Env:
         q0 = self.nsql
         kind = op[0]
         res = "ok"
-        if kind in ("add", "delete", "expunge", "expire", "mt", "mtd", "setpk", "merge", "refresh") and not (0 <= op[1] < len(P)):
+        if kind in ("add", "delete", "expunge", "expire", "mt", "mtd", "setpk", "merge", "refresh", "touch", "pickle") and not (0 <= op[1] < len(P)):
             return None  # bad-oid: not executed
         with warnings.catch_warnings():
             warnings.simplefilter("ignore")
@@ -181,6 +202,22 @@ class Env:
                     res = "ok:[" + ".".join(str(self.idx(o)) for o in rows) + "]"
                 elif kind == "refresh":
                     s.refresh(P[op[1]])
+                elif kind == "touch":  # a plain (non primary key) change: the next flush includes the instance
+                    P[op[1]].data = (P[op[1]].__dict__.get("data") or "") + "x"
+                elif kind == "pickle":
+                    # a detached / transient instance goes through a pickle round trip (cache,
+                    # worker hand-off); the copy takes its place
+                    import pickle
+
+                    o = P[op[1]]
+                    if self.sa.inspect(o).session_id is not None:
+                        res = "err:StillAttached"
+                    else:
+                        c = pickle.loads(pickle.dumps(o))
+                        del self.ids[id(o)]
+                        self._dropped = getattr(self, "_dropped", []) + [o]  # keep the id() unique
+                        P[op[1]] = c
+                        self.ids[id(c)] = op[1]
                 elif kind == "gett":  # Session.get with an identity token (not modelled in Lean)
                     r = s.get(self.Item, op[1], identity_token=op[2])
                     res = "ok:N" if r is None else "ok:%d" % self.idx(r)
@@ -217,6 +254,8 @@ class Env:
                     "was_deleted": bool(i.was_deleted),
                     "expired": bool(i.expired),
                     "modified": bool(i.modified),
+                    # the primary-key attribute as it is loaded right now (no load is triggered)
+                    "loaded_pk": i.dict.get("id") if "id" in i.dict else None,
                     "key": None if i.key is None else i.key[1][0],
                     "token": None if i.key is None else i.key[2],
                     "sid": i.session_id is not None,
@@ -301,7 +340,7 @@ def state_letter(o):
 
 def run_ops(ops, eoc=True):
     """execute a fixed op list; returns list of records (None for bad-oid → stops)"""
-    env = Env(eoc)
+    env = Env(eoc, with_data=any(op[0] in TOKEN_OPS for op in ops))
     out = []
     try:
         for op in ops:
@@ -322,6 +361,8 @@ def project(rec, prop):
          session.new / session.deleted / identity map, lifecycle events
     c34: outcome (incl. returned instance), identity key + attachment flags, identity map,
          expired flag, whether SQL was emitted
+    c32: outcome, state flags + expired flag + identity key of every instance, session.new /
+         session.deleted / identity map, transaction stack, rows visible
     full: everything
     """
     if rec in ("abstain", "bad-oid") or prop == "full":
@@ -337,7 +378,7 @@ def project(rec, prop):
         o2 = ",".join(t[:5] + t[6] + t[8:] for t in toks) or "-"
         out = [res, o2, im, q]
     elif prop == "c32":
-        o2 = ",".join(t[:5] + t[8:] for t in toks) or "-"
+        o2 = ",".join(t[:5] + t[6] + t[8:] for t in toks) or "-"  # state flags, expired, identity key
         out = [res, o2, new, dele, im, tx, db]
     else:
         raise ValueError(prop)
